@@ -891,8 +891,14 @@ class BaseImage(metaclass=ImageMeta):
             raise
 
         fd, filepath = mkstemp("-" + os.path.basename(url), dir=_TEMP_DIR)
-        os.write(fd, response.content)
-        os.close(fd)
+        try:
+            os.write(fd, response.content)
+        except BaseException:
+            # Don't leave the temporary file behind if it couldn't be written
+            os.remove(filepath)
+            raise
+        finally:
+            os.close(fd)
 
         new._source = filepath
         new._source_type = ImageSource.URL
